@@ -6,26 +6,26 @@ _PBT = "property-based testing with pgregory.net/rapid (sharded, shrunk replay f
 
 # additions of the strengthening rounds 3-5 (DESIGN.md 8.1-8.3), appended to the level text
 EXTRA = {
-    "C01": " Also: after every accepted triple the same bytes with the message/signature boundary moved are judged on their own; 2..16 goroutines verify their own triples concurrently. Messages up to 300000 bytes around multiples of 64 KiB.",
-    "C02": " Also: toy curves that report invalid candidates with an error wrapping ErrInvalidKey; paths of 255..513 steps; 2..8 goroutines deriving children from one shared extended key. Pinned P-256 steps whose sum wraps n without carry (2^32 search, cmd/findwrap); toy curve with 98% invalid candidates; toy keys with HardenedOnly()=false; library sentinels as injected permanent errors; scalar validity and Shift through the curves' key API.",
+    "C01": " Also: after every accepted triple the same bytes with the message/signature boundary moved are judged on their own; 2..16 goroutines verify their own triples concurrently. Messages up to 300000 bytes around multiples of 64 KiB. Signatures for the mirrored equations (S = ka-r, r-ka, -(r+ka)), built from the secret scalars.",
+    "C02": " Also: toy curves that report invalid candidates with an error wrapping ErrInvalidKey; paths of 255..513 steps; 2..8 goroutines deriving children from one shared extended key. Pinned P-256 steps whose sum wraps n without carry (2^32 search, cmd/findwrap); toy curve with 98% invalid candidates; toy keys with HardenedOnly()=false; library sentinels as injected permanent errors; scalar validity and Shift through the curves' key API. The injected permanent error must come back as that error value (errors.Is), bare or wrapped.",
     "C03": " Also: sentences in which one word is replaced by a non-list string with the same 32-bit FNV hash (found by exhaustive search); concurrent first use of a freshly selected word list. Rejected SetWordList calls in between; denormalised word spellings (rejection or consistent normalisation accepted).",
-    "C04": " Also: well-formed strings whose checksum belongs to another constant (Bech32m, 0, ...); prefixes constructed to leave the checksum register at 0; error values re-inspected after 13 further rejected calls; concurrent callers sharing a fresh prefix. Prefixes with non-ASCII runes and a checksum valid for their bytes; prefix and data part in different cases; case-bit flips of any character.",
+    "C04": " Also: well-formed strings whose checksum belongs to another constant (Bech32m, 0, ...); prefixes constructed to leave the checksum register at 0; error values re-inspected after 13 further rejected calls; concurrent callers sharing a fresh prefix. Prefixes with non-ASCII runes and a checksum valid for their bytes; prefix and data part in different cases; case-bit flips of any character. Framing (line ends, blanks, NUL, Unicode spaces, BOM, quotes) before/after the string; insertions after the last character; well-known network prefixes.",
     "C05": " Also: 25 fresh, never-encoded prefixes per case, each first used by 2..8 goroutines at once. Every Encode call repeated twice.",
     "C06": " Also: caller-supplied dst slices (re-used while earlier results are held; adjacent windows of one buffer); 2..8 goroutines hashing with their own instances concurrently; a third build variant GOARCH=386 (32-bit words, 32 lanes). Reset followed by another batch size; absorbs of 32..100 blocks in one call; rejected Absorb on a squeezing instance and with a short lane.",
-    "C07": " Also: crypto.Signer with plentiful / empty / failing random sources against crypto/ed25519 with the same arguments; a rejected Verify of every kind between signing calls; concurrent callers with different keys. Options values of other dynamic types with zero HashFunc; GenerateKey with six reader kinds against crypto/ed25519 on identical readers; messages around multiples of 64 KiB.",
-    "C08": " Also: sequences of shifts passed through one caller buffer that is refilled between calls (all public shifts first); concurrent non-hardened children of one shared parent. Shifts by +-lambda*k (cube root of unity mod n).",
-    "C09": " Also: pairs of valid (mnemonic, passphrase) inputs whose concatenations coincide although the split differs (word that is a prefix of a longer word; sentence that is a prefix of a longer sentence), computed alternately; hash-impostor words. Sentences of exactly 111..113 / 127..129 / 255..257 bytes; denormalised word spellings; parser inputs with 64 KiB+ tokens and 10000 words.",
+    "C07": " Also: crypto.Signer with plentiful / empty / failing random sources against crypto/ed25519 with the same arguments; a rejected Verify of every kind between signing calls; concurrent callers with different keys. Options values of other dynamic types with zero HashFunc; GenerateKey with six reader kinds against crypto/ed25519 on identical readers; messages around multiples of 64 KiB. Arguments passed as front parts of larger buffers; the empty message in four spellings; GenerateKey(nil) with a replaced crypto/rand.Reader.",
+    "C08": " Also: sequences of shifts passed through one caller buffer that is refilled between calls (all public shifts first); concurrent non-hardened children of one shared parent. Shifts by +-lambda*k (cube root of unity mod n). One shared caller buffer for the private and the public shift, compared after each call.",
+    "C09": " Also: pairs of valid (mnemonic, passphrase) inputs whose concatenations coincide although the split differs (word that is a prefix of a longer word; sentence that is a prefix of a longer sentence), computed alternately; hash-impostor words. Sentences of exactly 111..113 / 127..129 / 255..257 bytes; denormalised word spellings; parser inputs with 64 KiB+ tokens and 10000 words. Valid sentences of the registered list that is not selected.",
     "C10": " Also: the bytes returned by MarshalText are re-read after other paths were printed/marshalled and then overwritten by the caller. Regular-expression and format metacharacters as markers and noise; paths of 250..1025 components.",
     "C11": " Also: histories of 2..4 calls on one Worker mixing 64 KiB+ data and cancelled calls; 2..8 goroutines calling Mine on one shared Worker. Digest function as a drawn configuration value (pow.Hash); storms of pre-cancelled calls from 4..16 goroutines.",
     "C12": " Also: len*target up to 2^64 with lanes at the exact soundness boundary (smallest hash values whose difficulty is len*target-1) and at every magnitude above the target hash; concurrent callers on one shared Worker.",
-    "C13": " Also: 2..5 calls issued back to back (uncancelled right after cancelled) under GOMAXPROCS 1..16; 300..600 successive successful calls in one process. Contexts ending by deadline; digest function as configuration value.",
+    "C13": " Also: 2..5 calls issued back to back (uncancelled right after cancelled) under GOMAXPROCS 1..16; 300..600 successive successful calls in one process. Contexts ending by deadline; digest function as configuration value. Data of 100..5000 bytes.",
     "C14": " Also: first calls into the codecs made by 2..8 goroutines at once in 8 fresh child processes per case. Destinations of exactly DecodedLen bytes; 64..128 KiB inputs under GOMAXPROCS 1..16.",
-    "C15": " Also: leaf counts 1000..9000 under GOMAXPROCS 1..32 (powers of two and others); 2..8 goroutines sharing one Hasher. All 17 linked hash functions; leaves marshalling to nil and through one shared scratch buffer.",
-    "C16": " Also: neighbours at distance <= 4 constructed (meet in the middle) to have the same 32-bit FNV-1a/FNV-1 hash and length as the valid string, decoded right after it; one goroutine decoding a corrupted copy while others decode valid strings of the same prefix; zero-register prefixes.",
+    "C15": " Also: leaf counts 1000..9000 under GOMAXPROCS 1..32 (powers of two and others); 2..8 goroutines sharing one Hasher. All 17 linked hash functions; leaves marshalling to nil and through one shared scratch buffer. Leaf types that also implement io.WriterTo / io.Reader / Bytes / String / MarshalText / GobEncode / MarshalJSON with other content; the first leaf error must come back as that error (errors.As).",
+    "C16": " Also: neighbours at distance <= 4 constructed (meet in the middle) to have the same 32-bit FNV-1a/FNV-1 hash and length as the valid string, decoded right after it; one goroutine decoding a corrupted copy while others decode valid strings of the same prefix; zero-register prefixes. Upper-case strings edited with the charset's own lower-case characters (while an upper-case letter remains); well-known network prefixes.",
     "C17": " Also: the endomorphism eigenvalues (points with equal y and different x, scalars lambda, lambda+-1, ...) as corners; corner scalars as bit prefixes of longer scalars; sequences that reuse one pair of coordinate objects and one scalar buffer in place.",
-    "C18": " Also: hashes and marshalled proofs handed out earlier are re-read after other proofs were hashed.",
-    "C19": " Also: addresses whose checksum belongs to another constant (Bech32m, ...); concurrent callers of one network prefix. Prefix and data part in different cases; migration strings with an invalid group and a checksum matching a mishandled decoding.",
-    "C20": " Also: all four buffers placed (mmap MAP_FIXED_NOREPLACE) so that they straddle addresses whose low 32 bits are 0x80000000 / 0; a third build variant GOARCH=386 (portable code on 32-bit words) with a word-size generic hook check. States next to the all-zero state; 2^16+64 successive calls per build variant; four buffers exactly adjacent in memory; clone at the sponge level; a covered target that stops compiling is reported.",
+    "C18": " Also: hashes and marshalled proofs handed out earlier are re-read after other proofs were hashed. Proofs crafted with the secret scalar that Prove never emits: Gamma plus torsion and mixed-order keys with the nonce stepped until c*T = O (or not), chosen nonces 0, 1, L-1, -c0*x.",
+    "C19": " Also: addresses whose checksum belongs to another constant (Bech32m, ...); concurrent callers of one network prefix. Prefix and data part in different cases; migration strings with an invalid group and a checksum matching a mishandled decoding. Framing before/after the string.",
+    "C20": " Also: all four buffers placed (mmap MAP_FIXED_NOREPLACE) so that they straddle addresses whose low 32 bits are 0x80000000 / 0; a third build variant GOARCH=386 (portable code on 32-bit words) with a word-size generic hook check. States next to the all-zero state; 2^16+64 successive calls per build variant; four buffers exactly adjacent in memory; clone at the sponge level; a covered target that stops compiling is reported. Sponge-level squeezes in 1..4 successive calls with a second clone in between.",
 }
 
 TEXT = {
